@@ -157,6 +157,25 @@ func c04(args []string) int {
 				}(k)
 			}
 			wg.Wait()
+			// state leaking across requests: after the whole history of lookups on `real`, every request must still be answered
+			// as on a table freshly built from the same configuration and asked that request alone
+			for k, q := range reqs {
+				fresh, ferr := router.NewRouters(c.v2config("c04f", false))
+				if ferr != nil {
+					run.Fail("c04:history:configuration-not-accepted-twice", "the configuration was accepted once and refused when built again: "+ferr.Error(), map[string]interface{}{"config": c})
+					break
+				}
+				fo, ff, fa := lookup(fresh, q)
+				lo, lf, la := lookup(real, q)
+				if fo != lo || ff != lf || fmt.Sprint(fa) != fmt.Sprint(la) {
+					run.Fail("c04:history:answer-differs-from-fresh-table", fmt.Sprintf("request %d of the history: the table that served %d lookups answers %q %v, a freshly built table answers %q %v", k, len(reqs)*10, lo, la, fo, fa),
+						map[string]interface{}{"config": c, "request": q, "history": reqs[:k]})
+					break
+				}
+				if k >= 5 && !run.Thorough() {
+					break
+				}
+			}
 			reportPanics(run, "c04", map[string]interface{}{"config": c})
 			for k, q := range reqs {
 				a := answers[k]
